@@ -352,6 +352,15 @@ class Obj:
             raise PyRaise("TypeError", "%s does not support %s" % (self.cls.name, name))
         return self.ev.call_func(m, [self] + list(args), {})
 
+    def __call__(self, *args, **kwargs):
+        # an instance of a class that defines __call__ (a decorator written as a class)
+        if self.ev is None:
+            raise Undecided("object protocol without an interpreter")
+        m = self.ev.find_method(self.cls, "__call__")
+        if m is None:
+            raise PyRaise("TypeError", "'%s' object is not callable" % self.cls.name)
+        return self.ev.call_func(m, [self] + list(args), kwargs)
+
     def __getitem__(self, k):
         return self._dunder("__getitem__", k)
 
@@ -648,10 +657,10 @@ class Ev:
         try:
             node = func.node
             if isinstance(node, ast.Lambda):
-                env = self.bind(func, node.args, args, kwargs)
+                env = self.bind(func, node.args, args, kwargs, closure)
                 env["__closure__"] = closure
                 return self.expr(node.body, env, func)
-            env = self.bind(func, node.args, args, kwargs)
+            env = self.bind(func, node.args, args, kwargs, closure)
             env["__closure__"] = closure
             yields = []
             env["__yields__"] = yields
@@ -667,8 +676,20 @@ class Ev:
         finally:
             self.depth -= 1
 
-    def bind(self, func, a, args, kwargs):
+    def closure_with_defaults(self, node_args, env, func):
+        """A nested def / lambda evaluates its default values when it is *made*, in the scope it is made in (`lambda x, k=k: ...` in a
+        loop keeps each round's k): they travel with the function object as a layer of its closure."""
+        pos = list(getattr(node_args, "posonlyargs", [])) + list(node_args.args)
+        dflt = list(node_args.defaults)
+        pairs = list(zip([x.arg for x in pos[len(pos) - len(dflt):]], dflt)) if dflt else []
+        pairs += [(k.arg, d) for k, d in zip(node_args.kwonlyargs, node_args.kw_defaults) if d is not None]
+        if not pairs or all(isinstance(d, ast.Constant) for _p, d in pairs):
+            return env
+        return {"__closure__": env, "__defaults__": {p: self.expr(d, env, func) for p, d in pairs}}
+
+    def bind(self, func, a, args, kwargs, closure=None):
         env = {}
+        made = closure.get("__defaults__") if isinstance(closure, dict) else None
         params = [x.arg for x in list(getattr(a, "posonlyargs", [])) + list(a.args)]
         defaults = list(a.defaults)
         dmap = dict(zip(params[len(params) - len(defaults):], defaults)) if defaults else {}
@@ -678,6 +699,8 @@ class Ev:
                 env[p] = args[i]
             elif p in kwargs:
                 env[p] = kwargs.pop(p)
+            elif made is not None and p in made:
+                env[p] = made[p]
             elif p in dmap:
                 # default values are evaluated once, when the function is defined
                 ck = (id(func), p)
@@ -694,6 +717,8 @@ class Ev:
         for k, d in zip(a.kwonlyargs, a.kw_defaults):
             if k.arg in kwargs:
                 env[k.arg] = kwargs.pop(k.arg)
+            elif made is not None and k.arg in made:
+                env[k.arg] = made[k.arg]
             elif d is not None:
                 env[k.arg] = self.expr(d, {}, func)
             else:
@@ -830,7 +855,7 @@ class Ev:
                 nested = cache[key]
             if nested is None:
                 raise Undecided("nested def %s" % st.name)
-            env[st.name] = FuncRef(self, nested, closure=env)
+            env[st.name] = FuncRef(self, nested, closure=self.closure_with_defaults(st.args, env, func))
         elif isinstance(st, ast.ClassDef):
             nested = func.nested.get(st.name) if func is not None else None
             if not isinstance(nested, Cls) and func is not None:
@@ -1002,6 +1027,8 @@ class Ev:
                 o.vals[t.attr] = v
             elif isinstance(o, (FuncRef, BoundMethod)) and t.attr in ("__name__", "__doc__", "__qualname__", "__module__"):
                 pass        # cosmetic attributes of a function object: nothing the evaluated code can branch on
+            elif type(o).__name__ == "Namespace" and type(o).__module__ == "argparse":
+                setattr(o, t.attr, v)       # a plain record of parsed options
             else:
                 raise Undecided("attribute store on %r" % type(o).__name__)
         else:
@@ -1323,7 +1350,7 @@ class Ev:
                 if mod is None:
                     raise Undecided("lambda outside a function")
                 cache[id(e)] = Func(mod, "%s.<lambda@%d>" % (owner.qual if owner else mod.name, e.lineno), e, cls=None, outer=owner)
-            return FuncRef(self, cache[id(e)], closure=env)
+            return FuncRef(self, cache[id(e)], closure=self.closure_with_defaults(e.args, env, func))
         if isinstance(e, ast.NamedExpr):
             v = self.expr(e.value, env, func)
             env[e.target.id] = v
@@ -1411,6 +1438,76 @@ class PMap(dict):
 
     def __hash__(self):
         return id(self)
+
+    def copy(self):
+        return self
+
+    def evolver(self):
+        return _PMapEvolver(self)
+
+    def __getattr__(self, name):
+        # a method of pyrsistent's map this stand-in does not model: no claim either way
+        if name.startswith("__"):
+            raise AttributeError(name)
+        raise Undecided("pmap.%s is outside the evaluated fragment" % name)
+
+
+class _PMapEvolver:
+    """pyrsistent's evolver: a mutable view that leaves the map it was taken from alone; persistent() freezes the result."""
+    def __init__(self, base):
+        self._cur = dict(base)
+        self._base = base
+        self._dirty = False
+
+    def set(self, k, v):
+        self._cur[k] = v
+        self._dirty = True
+        return self
+
+    __setitem__ = lambda self, k, v: (self.set(k, v), None)[1]
+
+    def remove(self, k):
+        if k not in self._cur:
+            raise KeyError(k)
+        del self._cur[k]
+        self._dirty = True
+        return self
+
+    __delitem__ = lambda self, k: (self.remove(k), None)[1]
+
+    def __getitem__(self, k):
+        return self._cur[k]
+
+    def __contains__(self, k):
+        return k in self._cur
+
+    def __len__(self):
+        return len(self._cur)
+
+    def is_dirty(self):
+        return self._dirty
+
+    def persistent(self):
+        if not self._dirty:
+            return self._base
+        self._base, self._dirty = PMap(self._cur), False
+        return self._base
+
+    def __getattr__(self, name):
+        if name.startswith("__"):
+            raise AttributeError(name)
+        raise Undecided("pmap evolver .%s is outside the evaluated fragment" % name)
+
+
+class PkgData:
+    """pkgutil.get_data for the package's own data files, read from the tree under analysis"""
+    def __init__(self, prog):
+        self.root = prog.root
+
+    def get_data(self, package, resource):
+        import os
+        with open(os.path.join(self.root, resource), "rb") as fh:
+            return fh.read()
 
 
 class _AttrModule:
